@@ -55,10 +55,10 @@ def chunks(tier, seed):
            {"kind": "impulse_lists", "key": "imp0", "shard": 0, "of": 2},
            {"kind": "impulse_lists", "key": "imp1", "shard": 1, "of": 2}]
     for k in range(10):
-        out.append({"kind": "lists", "key": "lst%d" % k, "n": 800 if q else 12000})
+        out.append({"kind": "lists", "key": "lst%d" % k, "n": 800 if q else 25000})
     for k in range(16):
-        out.append({"kind": "kernels", "key": "ker%d" % k, "shard": k, "of": 16, "reps": 2 if q else 12,
-                    "nrandom": 30 if q else 1500})
+        out.append({"kind": "kernels", "key": "ker%d" % k, "shard": k, "of": 16, "reps": 2 if q else 25,
+                    "nrandom": 30 if q else 3000})
     for k in range(2):
         out.append({"kind": "smooth", "key": "smo%d" % k, "n": 60 if q else 1500})
     return out
